@@ -62,6 +62,14 @@ def _cases(tier, rng):
         if rng.random() < 0.4:
             pipe = [['group_by', ['const', 0], pipe]] if rng.random() < 0.5 else pipe
         yield {'kind': 'mux', 'term': pipe, 'items': items, 'fail': [1, 1], 'op': 'typed'}
+    # an error that is NOT handled inside the pipeline of a group / window / segment surfaces as on_error where that pipeline is
+    # demultiplexed: a handler placed AFTER the group_by / roll / split / time_split never sees it
+    for h in (['ignore'], ['err_map', -1], ['route']):
+        for ctx in (['group_by', ['mod', 2]], ['split', ['floordiv', 2]], ['roll', 2, 2], ['roll', 3, 1]):
+            for inner in ([['map', ['raise_if_mod', 3, 0]]], [['scan', ['raise_if_mod', 3, 0], 0, False, None]],
+                          [['filter', ['raise_if_mod', 3, 0]], ['count', False]]):
+                yield {'kind': 'mux', 'term': [ctx + [inner], h], 'items': [1, 2, 4, 3, 5, 7], 'outer_handler': True}
+                yield {'kind': 'mux', 'term': [ctx + [inner], h, ['count', False]], 'items': [3, 1], 'outer_handler': True}
     n = {'quick': 1500, 'thorough': 10000, 'search': 600}[tier]
     for _ in range(n):
         op, (k, r), kind = failing_op(rng)
@@ -123,6 +131,15 @@ def _strip(term):
 def _oracle(case, r):
     if 'harness_exc' in r:
         return 'real code raised: ' + r['harness_exc']
+    if case.get('outer_handler') and not r.get('raised'):
+        xs = [dec(x) for x in case['items']]
+        first = [i for i, x in enumerate(xs) if x % 3 == 0]
+        pos = [i for i, c in enumerate(r['chunks']) if any('x' in o for o in c)]
+        if first and (not pos or pos[0] != first[0] + 1):
+            return ('item %s (step %d) makes the user function raise inside %s and nothing handles the error inside that inner pipeline: '
+                    'it must surface as on_error where the inner pipeline is demultiplexed, whatever follows; observed %s'
+                    % (xs[first[0]], first[0], muxprop.json.dumps(case['term'][0])[:120], str(r['chunks'])[:300]))
+        return None
     if r.get('raised') or 'fail' not in case:
         return None
     k, rr = case['fail']
@@ -139,6 +156,8 @@ def _oracle(case, r):
     fails = [x for x in xs if is_fail(x)]
     if not hidx:
         # unhandled: on_error at the first failing item, nothing after
+        if any(st[0] in ('assert', 'assert1') for st in muxgen.walk(t)):
+            return None     # an assert_/assert_1 further down can end the stream earlier with its own error: not judged here
         flat = [o for c in r['chunks'] for o in c]
         if fails:
             first = [i for i, x in enumerate(xs) if is_fail(x)][0]
@@ -149,7 +168,8 @@ def _oracle(case, r):
                 return 'no handler: item %s makes the user function raise but the stream did not end with on_error: %s' % (xs[first], str(r['chunks'])[:300])
             if got_pos[0] != first + 1:
                 return 'no handler: on_error surfaced at step %d, the first failing item is at step %d' % (got_pos[0] - 1, first)
-        elif any('x' in o for o in flat):
+        elif any('x' in o for o in flat) and not any(st[0] in ('assert', 'assert1') for st in muxgen.walk(t)):
+            # (an assert_/assert_1 further down ends the stream with its own error when its predicate fails: not this check's subject)
             return 'no item fails but the stream ended with on_error: %s' % str(r['chunks'])[:300]
         return None
     if muxprop.has_fatal(r['chunks']):
